@@ -574,3 +574,672 @@ def parse_lists(out):
         body = m.group(1).strip()
         res.append([int(x.replace('%nat', '').strip()) for x in body.split(';')] if body else [])
     return res
+
+
+# ---------------------------------------------------------------------------
+# float search oracle (transcendental class): templates in Lcapy syntax
+def text_cases(rng, tier):
+    cs = []
+
+    def add(text, pts, fkey, dom='t', discs=(), mode='scalar', **kw):
+        c = {'kind': 'text', 'text': text, 'points': [p if isinstance(p, str) else fstr(p) for p in pts], 'fkey': fkey,
+             'dom': dom, 'discs': [[fstr(a), fstr(b), [fstr(d) for d in ds]] for a, b, ds in discs], 'mode': mode}
+        c.update(kw)
+        cs.append(c)
+    R = [F(-5, 2), F(-1), F(-1, 3), F(0), F(1, 64), F(1, 3), HALF, F(1), F(5, 2), F(3), F(7)]
+    for v in ('t', 'f', 'omega'):
+        add('sinc(%s)' % v, R, 'sinc', v)
+        add('sincn(%s)' % v, R, 'sincn', v)
+        add('sincu(%s)' % v, R, 'sincu', v)
+    for M in (2, 3, 4, 5):
+        add('psinc(%d, t)' % M, [F(-2), F(-1), F(-1, 3), F(0), F(1, 4), HALF, F(1), F(2), F(3), F(5, 2)], 'psinc', 't', M=M)
+    add('psinc(3, n)', [F(-2), F(-1), F(0), F(1), F(2), F(5)], 'psinc', 'n', M=3)
+    a = rng.choice([1, 2, 3])
+    b = rng.choice([1, 2, 5])
+    big = [F(40), F(-40), F(300), F(-300), F(600), F(-600), F(650)]
+    add('exp(-%d*t)*Heaviside(t)' % a, R + big, 'exp*H', 't', discs=[(F(1), F(0), [F(0)])])
+    add('exp(t)', [F(-700), F(-20), F(0), F(20), F(499), F(501), F(600), F(700)], 'exp', 't', a=1)
+    add('exp(-%d*t)*cos(%d*t)*u(t)' % (a, b), R + [F(40)], 'exp*cos', 't', discs=[(F(1), F(0), [F(0)])])
+    add('exp(-t**2/%d)' % b, R + [F(20), F(-20)], 'gauss', 't')
+    add('sin(%d*t + 1/3)/(t**2 + %d)' % (a, b), R + [F(1000)], 'sin/poly', 't')
+    add('cosh(t/4) - sinh(t/3)', R + [F(40)], 'hyp', 't')
+    add('sqrt(t**2 + %d)*sign(t - 1)' % b, R + [F(1000)], 'sqrt*sign', 't', discs=[(F(1), F(-1), [F(0)])])
+    add('besselj(0, %d*t)' % a, [F(0), HALF, F(1), F(5, 2), F(10), F(-3)], 'besselj', 't')
+    add('besselj(1, t) + besseli(0, t/2)', [F(0), HALF, F(1), F(5, 2), F(-3)], 'bessel', 't')
+    add('rect(t/%d)*cos(t)' % b, R, 'rect*cos', 't', discs=[(F(1, b), F(0), [HALF, -HALF])])
+    add('tri(t - 1)*exp(t)', R, 'tri*exp', 't')
+    add('trap(t, 1/2)*sin(t)', R + [F(5, 8), F(-5, 8)], 'trap*sin', 't')
+    add('ramp(t - 1)*exp(-t) + rampstep(2*t)', R + [F(1, 4), F(40)], 'ramp', 't')
+    add('Piecewise((exp(-%d*t), t >= 0))' % a, [F(0), HALF, F(3), F(-1, 64), F(-2)], 'pw_ge', 't', pw_ge=fstr(0))
+    add('Piecewise((exp(-%d*t), t >= 0))' % a, [HALF, F(3), F(-2), F(1)], 'pw_ge', 't', pw_ge=fstr(0), mode='list')
+    add('Piecewise((sin(t), t < 1), (cos(t), True))', R, 'pw2', 't', discs=[(F(1), F(-1), [F(0)])])
+    add('delta(t - 1) + exp(-t)', R, 'delta', 't', discs=[(F(1), F(-1), [F(0)])])
+    # frequency responses / transform domains, real and complex points
+    cp = ['0', '1/2', '-3', '1/2,1', '-3,2', '0,5', '-1/4,-7/2', '1000', '0,1000']
+    add('(s + %d)/(s**2 + %d*s + %d)' % (a, a + 1, b + 4), cp, 'ratfun_s', 's', complex=True)
+    add('exp(-s/2)/(s + %d)' % a, cp, 'delay_s', 's', complex=True)
+    add('%d/(j*omega + %d)' % (b, a), R + [F(1000), F(-1000)], 'jomega', 'omega', complex=True)
+    add('1/(j*2*pi*f*%d + 1)' % a, R + [F(1000)], 'jf', 'f', complex=True)
+    add('sincn(f)*exp(-j*pi*f)', R, 'sincn*exp', 'f', complex=True)
+    add('z/(z - 1/%d)' % (a + 1), ['2', '-3', '1/2,1', '0,1', '-3,2', '1000'], 'ratfun_z', 'z', complex=True)
+    add('(z**2 + 1)/(z**2 - z/2 + 1/4)', ['2', '-3', '1/2,1', '0,1', '-3,2'], 'ratfun_z2', 'z', complex=True)
+    NI = [F(-5), F(-1), F(0), F(1), F(2), F(7), F(40)]
+    add('(1/%d)**n*u(n)' % (a + 1), NI, 'geom', 'n', discs=[])
+    add('n*(-1/2)**n*u(n)', NI, 'ngeom', 'n')
+    add('cos(pi*n/%d)*u(n - 1)' % (b + 1), NI, 'cos_n', 'n')
+    add('delta(n - 2) + 3*delta(n)', NI, 'ui', 'n')
+    add('sign(n)*exp(-abs(n)/3)', NI, 'dtsign*exp', 'n')
+    add('rect(n/4)', NI + [F(2), F(-2)], 'dtrect', 'n')
+    add('exp(-j*2*pi*k/8)', [F(0), F(1), F(3), F(7), F(-2)], 'dft', 'k', complex=True)
+    # vector forms of some of the above
+    for c in list(cs):
+        if c['fkey'] in ('exp*cos', 'sin/poly', 'ratfun_s', 'geom', 'tri*exp', 'jomega') or (tier != 'quick' and c['mode'] == 'scalar' and 'pw_ge' not in c):
+            d = dict(c)
+            d['mode'] = rng.choice(['list', 'array'])
+            d['pair'] = True
+            cs.append(d)
+    return cs
+
+
+def text_class(c, p):
+    """class of a point of a text case, for the finding key"""
+    fk = c['fkey']
+    x = F(p.split(',')[0]) if ',' not in p else None
+    if fk == 'sinc':
+        return 'x!=0' if x != 0 else 'x=0'
+    if fk == 'psinc':
+        if x is not None and x.denominator == 1:
+            return '%s-x,%s-M' % ('odd' if x.numerator % 2 else 'even', 'odd' if c['M'] % 2 else 'even')
+        return 'nonint'
+    if fk == 'exp':
+        return 'arg>500' if x is not None and x > 500 else 'arg<=500'
+    if x is None:
+        return 'complex'
+    return 'x=0' if x == 0 else ('x<0' if x < 0 else 'x>0')
+
+
+def at_disc(c, p):
+    if ',' in p:
+        return False
+    x = F(p)
+    return any(F(a) * x + F(b) in [F(d) for d in ds] for a, b, ds in c['discs'])
+
+
+def sim_cases(rng, tier):
+    Rv = rng.choice(['1/2', '1', '2'])
+    Cv = rng.choice(['1/4', '1/2'])
+    Lv = rng.choice(['1/4', '1/2'])
+    Ns = (101, 401) if tier == 'quick' else (201, 801)
+    cs = []
+    for integ in ('trapezoid', 'backward-euler'):
+        for N in Ns:
+            cs.append({'kind': 'sim', 'net': ['V1 1 0 step 2', 'R1 1 2 %s' % float(F(Rv)), 'C1 2 0 %s' % float(F(Cv))], 'T': '1', 'N': N,
+                       'integrator': integ, 'probe': ['C1.v'], 'ref': ['rc', Rv, Cv], 'id': 'RC:' + integ})
+            cs.append({'kind': 'sim', 'net': ['V1 1 0 step 2', 'R1 1 2 %s' % float(F(Rv)), 'L1 2 0 %s' % float(F(Lv))], 'T': '1', 'N': N,
+                       'integrator': integ, 'probe': ['L1.i'], 'ref': ['rl', Rv, Lv], 'id': 'RL:' + integ})
+            cs.append({'kind': 'sim', 'net': ['V1 1 0 step 1', 'R1 1 2 1', 'L1 2 3 0.5', 'C1 3 0 0.25'], 'T': '4', 'N': 4 * (N - 1) + 1,
+                       'integrator': integ, 'probe': ['C1.v'], 'ref': ['rlc'], 'id': 'RLC:' + integ})
+    return cs
+
+
+def sim_ref(ref, tv):
+    if ref[0] == 'rc':
+        tau = float(F(ref[1]) * F(ref[2]))
+        return [2 * (1 - math.exp(-t / tau)) for t in tv]
+    if ref[0] == 'rl':
+        R, L = float(F(ref[1])), float(F(ref[2]))
+        return [2 / R * (1 - math.exp(-t * R / L)) for t in tv]
+    wd = math.sqrt(7.0)
+    return [1 - math.exp(-t) * (math.cos(wd * t) + math.sin(wd * t) / wd) for t in tv]
+
+
+RESP_H = [('1/(s + 1)', lambda t: 1 - math.exp(-t)),
+          ('2/(s + 3)', lambda t: 2.0 / 3 * (1 - math.exp(-3 * t))),
+          ('(s + 3)/(s**2 + 3*s + 2)', lambda t: 2 * (1 - math.exp(-t)) - 0.5 * (1 - math.exp(-2 * t)))]
+
+
+def response_cases(rng, tier):
+    cs = []
+    hi = rng.randrange(len(RESP_H))
+    for wrap in (None, 'transfer'):
+        for method in ('bilinear', 'impulse-invariance', 'backward-euler', 'forward-euler'):
+            if tier == 'quick' and wrap == 'transfer' and method in ('forward-euler',):
+                continue
+            for N in (101, 401):
+                cs.append({'kind': 'response', 'H': RESP_H[hi][0], 'hi': hi, 'method': method, 'T': '4', 'N': N, 'input': 'step',
+                           'wrap': wrap, 'id': 'response:%s:%s' % (wrap or 'expr', method)})
+    return cs
+
+
+def simstep_cases(rng, n):
+    cs = []
+    for cls in TS.CLASSES:
+        for _ in range(n):
+            r = lambda: fstr(F(rng.randint(-9, 9), rng.randint(1, 6)))
+            nz = lambda: fstr(F(rng.randint(1, 9), rng.randint(1, 6)))
+            cs.append({'kind': 'simstep', 'cls': cls, 'X': nz(), 'dt': nz(), 'v1p': r(), 'v2p': r(), 'ip': r()})
+    return cs
+
+
+SIM_CASES_HDR = '''From Coq Require Import QArith Qcanon Bool List ZArith.
+Require Import LT.FieldSec LT.NumEval LT.NumEvalSim Gen.NumSimGen.
+Import ListNotations.
+Definition sg (s : csign) (g : Qc) : Qc := match s with Plus => g | Minus => (- g)%Qc end.
+Fixpoint entry (l : list (cnode * cnode * csign)) (g : Qc) (r c : cnode) : Qc :=
+  match l with [] => 0%Qc | (r', c', s) :: t => ((if cnode_eqb r r' && cnode_eqb c c' then sg s g else 0) + entry t g r c)%Qc end.
+Definition failing (l : list (nat * bool)) : list nat := map fst (filter (fun p => negb (snd p)) l).
+'''
+
+
+# ---------------------------------------------------------------------------
+def expand_modes(cases):
+    """'both' -> a scalar and an array run of the same expression (cross-checked element-wise)"""
+    out = []
+    for c in cases:
+        if c.get('mode') == 'both':
+            a = dict(c, mode='scalar')
+            b = dict(c, mode='array')
+            a['pair_with'] = len(out) + 1
+            out += [a, b]
+        else:
+            out.append(c)
+    return out
+
+
+def observed(rj, which):
+    """('val', Fraction) | ('none',) | ('skip', why)"""
+    if which == 'sym':
+        if 'sym' in rj:
+            return ('val', F(rj['sym']))
+        if 'sym_undef' in rj:
+            return ('none',) if rj['sym_undef'] == 'nan' else ('skip', 'sym:' + rj['sym_undef'][:30])
+        return ('skip', 'sym_inexact')
+    if 'num' in rj:
+        return ('val', F(rj['num']))
+    if 'num_err' in rj:
+        return ('none',)
+    return ('skip', 'num_inexact')
+
+
+def tree_hash(tr):
+    return hashlib.sha256(json.dumps(tr).encode()).hexdigest()[:8]
+
+
+def funcs_in(tr, acc=None):
+    acc = [] if acc is None else acc
+    if isinstance(tr, list):
+        if tr and tr[0] == 'f':
+            acc.append(tr[1])
+        elif tr and tr[0] in ('trap', 'heav2', 'step2'):
+            acc.append(tr[0])
+        for x in tr[1:]:
+            funcs_in(x, acc)
+    return acc
+
+
+def run(tier='quick', replay=None):
+    res = core.Result(PID, tier)
+    rng = random.Random(core.seed() * 7919 + 17)
+    core.ensure_theory(['FieldSec', 'NumEval', 'NumEvalSim'])
+    w = core.Work(PID)
+    violations = []
+    cex = []            # concrete property failures on the real code: dict(key, what, case, point, ...)
+    known_open = set(k['key'] for k in core.load_known() if k.get('property') == PID and k.get('status') == 'open')
+    try:
+        res.trusted = [
+            'Coq 8.16.1 kernel + vm_compute (no native_compute)',
+            'translators tools/tr_numfuncs.py (sha256 %s), tools/tr_numsim.py (sha256 %s) + statement templates in checks/c17.py' % (
+                core.sha256_file(os.path.join(core.VERIF, 'tools', 'tr_numfuncs.py'))[:16],
+                core.sha256_file(os.path.join(core.VERIF, 'tools', 'tr_numsim.py'))[:16]),
+            'specification coq/theory/NumEval.v: spec_Heaviside/spec_sign/spec_DiracDelta/spec_sinc (SymPy functions), disc1/disc_trap '
+            '(excluded points), psinc_int_spec; coq/theory/NumEvalSim.v (companion orientation, conductance stamp)',
+            'modelled, not verified: sympy lambdify printing (contract "sinc(x) is printed as sinc(x/pi)" re-read from the real printer on '
+            'every run), numpy float arithmetic (exact for the dyadic inputs of the exact class; float -> rational by limit_denominator(10^6) '
+            'with a 1e-12 closeness test), the limit()/simplify() fall-backs of evaluate, scipy Bessel functions, numpy.linalg.inv and '
+            'scipy.signal.lfilter inside Simulator/response',
+        ]
+        res.assumptions = ['sinc family: arbitrary field of characteristic 0 with decidable equality, arbitrary function sn and constant pi '
+                           '(so every statement holds for the real sine); psinc additionally an arbitrary integrality oracle int_of',
+                           'exact class: rational points and rational coefficients; discontinuities of Heaviside/sign/DiracDelta (0), rect '
+                           '(+-1/2), trap with alpha = 0 (+-1/2) are excluded as the property says',
+                           'NOT covered (partial): floating-point rounding, convergence as h -> 0 for arbitrary circuits, Bessel functions']
+        texts = {}
+        # ---- 1. translate ---------------------------------------------------------
+        nf = em = ns = None
+        try:
+            nf = TF.NumFuncs(core.REPO)
+            em = TF.Emit(nf)
+            texts['NumFuncsGen.v'] = em.text() + '\n' + TF.tables_text(em)
+        except TF.Untranslatable as e:
+            res.failed_obl.append(('translate_numfuncs', 'lcapy/expr.py|extrafunctions.py|acdc.py|config.py', str(e)))
+            res.obligations += 1
+            em = None
+        try:
+            ns = TS.NumSim(core.REPO)
+            texts['NumSimGen.v'] = ns.text()
+        except TS.Untranslatable as e:
+            res.failed_obl.append(('translate_numsim', 'lcapy/simulator.py|mnacpts.py|sexpr.py', str(e)))
+            res.obligations += 1
+            ns = None
+        for f_, t_ in texts.items():
+            w.write(f_, t_)
+        r0 = core.coqc_many(w.dir, list(texts), timeout=300)
+        for f_, (ok, out, secs) in r0.items():
+            if not ok:
+                res.failed_obl.append(('definitions_' + f_[:-2], f_, out[-800:]))
+                res.obligations += 1
+                if f_ == 'NumFuncsGen.v':
+                    em = None
+                else:
+                    ns = None
+        # ---- 2. prove -------------------------------------------------------------
+        tfiles = {}
+        file_key = {}
+        stmts = {}
+        if em is not None:
+            tfiles = theorem_files(em)
+            for f_, d in tfiles.items():
+                texts[f_] = d['text']
+                file_key[f_] = d['key']
+                stmts.update(d['stmts'])
+            texts['C17.v'] = open(os.path.join(core.VERIF, 'coq', 'props', 'C17.v')).read()
+        if ns is not None:
+            texts['C17sim.v'] = open(os.path.join(core.VERIF, 'coq', 'props', 'C17sim.v')).read()
+        bad = core.gate_text('generated', '\n'.join(texts.values()))
+        if bad:
+            res.failed_obl.append(('gate', 'generated', '; '.join(bad)))
+            res.obligations += 1
+        files = [f_ for f_ in texts if f_ not in ('NumFuncsGen.v', 'NumSimGen.v')]
+        for f_ in files:
+            w.write(f_, texts[f_])
+        r1 = core.coqc_many(w.dir, files, timeout=600)
+        ok_keys = []
+        if em is not None:
+            ok_keys = [d['key'] for f_, d in tfiles.items() if f_.startswith('C17_f_') and r1[f_][0]]
+            et, enames = expr_file(ok_keys, [f_ for f_ in nf.causal_funs if f_ in ok_keys])
+            texts['C17_expr.v'] = et
+            w.write('C17_expr.v', et)
+            r1['C17_expr.v'] = core.coqc(w.dir, 'C17_expr.v', timeout=600)
+            files.append('C17_expr.v')
+        res.coq_results(w.dir, r1, {f_: texts[f_] for f_ in files})
+        res.extra['coq_seconds'] = {f_: round(r[2], 1) for f_, r in r1.items()}
+        res.extra['functions_with_proved_agreement'] = sorted(ok_keys)
+        res.extra['generated_statements'] = stmts
+        if nf is not None:
+            res.extra['outside_model'] = {'numeric definitions present but not modelled': TF.NUM_OPAQUE,
+                                          'lambdify table': nf.table, 'config': {k: str(v) for k, v in nf.cfg.items()}}
+
+        # ---- 3. run the real code ---------------------------------------------------
+        nprobe = probe_cases()
+        ngen = 150 if tier == 'quick' else 1200
+        exact = expand_modes(nprobe + gen_exact_cases(rng, ngen))
+        tcases = text_cases(rng, tier)
+        scases = sim_cases(rng, tier)
+        rcases = response_cases(rng, tier)
+        stcases = simstep_cases(rng, 4 if tier == 'quick' else 20)
+        misc = [{'kind': 'lambdify'}, {'kind': 'rmodel', 'cpt': 'C'}, {'kind': 'rmodel', 'cpt': 'L'}]
+        if replay:
+            rc = replay.get('case')
+            exact, tcases, scases, rcases, stcases, misc = [], [], [], [], [], []
+            if rc:
+                {'expr': exact, 'text': tcases, 'sim': scases, 'response': rcases}.get(rc['kind'], misc).append(rc)
+                if rc['kind'] in ('sim', 'response'):
+                    d = dict(rc)
+                    d['N'] = 4 * (int(rc['N']) - 1) + 1
+                    {'sim': scases, 'response': rcases}[rc['kind']].append(d)
+                exact = expand_modes(exact)
+        allc = scases + rcases + exact + tcases + stcases + misc
+        allr = core.run_impl('impl_numeval.py', allc, timeout=1500)
+        o = 0
+        sres = allr[o:o + len(scases)]; o += len(scases)
+        rres = allr[o:o + len(rcases)]; o += len(rcases)
+        eres = allr[o:o + len(exact)]; o += len(exact)
+        tres = allr[o:o + len(tcases)]; o += len(tcases)
+        stres = allr[o:o + len(stcases)]; o += len(stcases)
+        mres = allr[o:]
+        res.programs = len(exact) + len(tcases) + len(scases) + len(rcases) + len(stcases)
+        if replay:
+            print(json.dumps({'replayed': allc, 'lcapy': allr}, indent=1)[:6000])
+
+        # ---- 4. exact class: oracle sweep + correspondence items ------------------------
+        items = []       # (id, kind, text)
+        meta = {}        # id -> (case index, point index or None, kind)
+        defs = {}
+        defects = set()  # (function, class) seen failing in single-function probes
+
+        def add_cex(key, what, c, p=None, **kw):
+            d = {'key': key, 'what': what, 'case': {k: v for k, v in c.items() if k not in ('pair_with',)}, 'point': p, 'found_input': True,
+                 'how': './check C17 --replay <this file>'}
+            d.update(kw)
+            cex.append(d)
+
+        def attribute(c, x, apps, kind):
+            tag = c.get('tag', '')
+            if tag.startswith('probe:') and tag[6:] in BREAKS and apps:
+                fn, u, _ = apps[-1]
+                defects.add((fn, cls_of(fn, u)))
+                return '%s:%s:%s' % (kind, fn, cls_of(fn, u))
+            for fn, u, _ in apps:
+                if (fn, cls_of(fn, u)) in defects:
+                    return '%s:%s:%s' % (kind, fn, cls_of(fn, u))
+            return '%s:expr:%s' % (kind, tree_hash(c['tree']))
+        nid = 0
+        for ci, (c, r) in enumerate(zip(exact, eres)):
+            if 'error' in r:
+                res.count('impl_error')
+                add_cex('impl_error:' + r['error'].split(':')[0], 'building/evaluating the expression failed: ' + r['error'], c)
+                continue
+            forced = bool(c.get('causal'))
+            cflag = bool(r.get('is_causal'))
+            xs = [F(p) for p in c['points']]
+            defs[ci] = 'Definition e_%d : ex := %s.' % (ci, ex_coq(c['tree']))
+            vec = c['mode'] != 'scalar'
+            pts_info = []
+            vec_ok = True
+            for j, (x, rj) in enumerate(zip(xs, r['res'])):
+                apps = []
+                try:
+                    mv = pyeval(c['tree'], x, apps)
+                except Singular:
+                    res.count('points_singular')
+                    pts_info.append(None)
+                    vec_ok = False
+                    continue
+                if mv is not None and (mv.denominator > 10 ** 4 or abs(mv) > 10 ** 4):
+                    res.count('points_large_value')
+                    pts_info.append(None)
+                    vec_ok = False
+                    continue
+                disc = any(a[2] for a in apps)
+                so = observed(rj, 'sym')
+                no = observed(rj, 'num') if not (vec and 'vec_err' in r) else ('none',)
+                pts_info.append((x, so, no, disc, apps))
+                res.add_case('%s|%s|%s' % (c['dom'], json.dumps(c['tree']), c['points'][j]), True,
+                             {'case': c, 'lcapy': r} if (ci % 61 == 0 and j == 0) else None)
+                res.count('dom_' + c['dom'])
+                res.count('mode_' + c['mode'])
+                if disc:
+                    res.count('points_at_discontinuity')
+                # correspondence items
+                if so[0] != 'skip' and em is not None:
+                    obs = 'None' if so[0] == 'none' else '(Some %s)' % qcl(so[1])
+                    items.append((nid, 'sym', 'oqeq (eval sym_tab e_%d %s) %s' % (ci, qcl(x), obs)))
+                    meta[nid] = (ci, j, 'sym')
+                    nid += 1
+                if not vec and no[0] != 'skip' and em is not None:
+                    obs = 'ORaise' if no[0] == 'none' else '(OScalar %s)' % qcl(no[1])
+                    items.append((nid, 'num', 'outeq (nrun %s e_%d (Scalar %s) None) %s' % ('true' if cflag else 'false', ci, qcl(x), obs)))
+                    meta[nid] = (ci, j, 'num')
+                    nid += 1
+                if no[0] == 'skip':
+                    vec_ok = False
+                    res.count('points_inexact_float')
+                # ---- property oracle (independent of the Coq model): evaluate vs exact substitution
+                if vec and 'vec_err' in r:
+                    continue
+                masked = cflag and x < 0
+                if masked:
+                    res.count('points_causal_negative')
+                    if no[0] == 'val' and no[1] != 0:
+                        add_cex('causal_mask:nonzero-at-negative-time', 'causal expression does not evaluate to 0 at a negative time', c, c['points'][j], lcapy=rj)
+                    if not forced and so[0] == 'val' and so[1] != 0:
+                        add_cex(attribute(c, x, apps, 'causal_mask:inferred-causal-but-nonzero'),
+                                'is_causal is inferred True but exact substitution at a negative time is not 0 (the mask changes the value)', c, c['points'][j], lcapy=rj)
+                    continue
+                if disc or so[0] == 'skip' or no[0] == 'skip':
+                    continue
+                if so[0] == 'val' and no[0] == 'val' and so[1] != no[1]:
+                    add_cex(attribute(c, x, apps, 'sym_ne_num'), 'evaluate(%s) = %s but exact substitution gives %s (not a discontinuity)' % (
+                        c['points'][j], no[1], so[1]), c, c['points'][j], lcapy=rj, expected=fstr(so[1]), got=fstr(no[1]), math=fstr(mv) if mv is not None else None)
+                elif so[0] == 'none' and no[0] == 'val':
+                    add_cex('extrapolated:%s' % tree_hash(c['tree']), 'no clause of the Piecewise applies at %s but evaluate returns %s' % (c['points'][j], no[1]),
+                            c, c['points'][j], lcapy=rj)
+                elif so[0] == 'val' and no[0] == 'none' and not vec:
+                    add_cex(attribute(c, x, apps, 'raises'), 'evaluate(%s) raises %s but exact substitution gives %s' % (
+                        c['points'][j], rj.get('num_err'), so[1]), c, c['points'][j], lcapy=rj)
+            # vector item: whole-list behaviour
+            if vec and em is not None and vec_ok and all(pi is not None for pi in pts_info) and 'vec_err' not in r or (
+                    vec and em is not None and 'vec_err' in r and all(pi is not None for pi in pts_info)):
+                if 'vec_err' in r:
+                    obs = 'ORaise'
+                else:
+                    obs = '(OVector [%s])' % '; '.join(qcl(pi[2][1]) for pi in pts_info) if all(pi[2][0] == 'val' for pi in pts_info) else None
+                if obs is not None:
+                    items.append((nid, 'vec', 'outeq (nrun %s e_%d (Vector [%s]) None) %s' % (
+                        'true' if cflag else 'false', ci, '; '.join(qcl(x) for x in xs), obs)))
+                    meta[nid] = (ci, None, 'vec')
+                    nid += 1
+                if 'vec_err' in r:
+                    # a list evaluation may raise only if some element raises on its own (checked against the scalar twin below / the model)
+                    res.count('vector_raises')
+            # scalar twin vs array run of the same expression
+            if 'pair_with' in c:
+                r2 = eres[c['pair_with']]
+                if 'error' not in r2:
+                    if 'vec_err' in r2:
+                        if all('num' in rj or 'num_inexact' in rj for rj in r['res']):
+                            add_cex('array_ne_scalar:raises', 'array evaluation raises %s although every element evaluates as a scalar' % r2['vec_err'], c)
+                    else:
+                        for j, (a_, b_) in enumerate(zip(r['res'], r2['res'])):
+                            fa, fb = a_.get('num_float', a_.get('num_inexact')), b_.get('num_float', b_.get('num_inexact'))
+                            if fa is not None and fb is not None and float(fa) != float(fb):
+                                add_cex('array_ne_scalar:%s' % tree_hash(c['tree']), 'array element %d = %s but scalar evaluation = %s' % (j, fb, fa), c, c['points'][j])
+                            elif (fa is None) != (fb is None):
+                                add_cex('array_ne_scalar:%s' % tree_hash(c['tree']), 'array and scalar evaluation differ in kind at element %d' % j, c, c['points'][j])
+        # correspondence evaluation inside Coq
+        corr_fail = []
+        if em is not None and items and os.path.exists(w.path('NumFuncsGen.vo')):
+            shards = [items[i:i + 400] for i in range(0, len(items), 400)]
+            fns = []
+            for si, sh in enumerate(shards):
+                used = sorted(set(meta[i][0] for i, _, _ in sh))
+                txt = cases_file(sh).replace('Definition failing', '\n'.join(defs[u] for u in used) + '\nDefinition failing', 1)
+                # definitions must precede the case lists
+                head, tail = txt.split('Definition symcases', 1)
+                txt = head + 'Definition symcases' + tail
+                w.write('cases_%d.v' % si, txt)
+                fns.append('cases_%d.v' % si)
+            cr = core.coqc_many(w.dir, fns, timeout=900)
+            for f_, (ok, out, secs) in cr.items():
+                ls = parse_lists(out) if ok else None
+                if ls is None or len(ls) != 3:
+                    res.failed_obl.append(('correspondence_eval', f_, out[-600:]))
+                    res.obligations += 1
+                else:
+                    corr_fail += ls[0] + ls[1] + ls[2]
+            res.extra['traces_validated_against_impl'] = len(items)
+        for i in corr_fail:
+            ci, j, kind = meta[i]
+            res.disagreements.append({'case': exact[ci], 'point': None if j is None else exact[ci]['points'][j], 'side': kind,
+                                      'lcapy': eres[ci]['res'][j] if j is not None else {k: v for k, v in eres[ci].items() if k != 'res'}})
+
+        # ---- 5. float search oracle ----------------------------------------------------
+        notes = []
+        for c, r in zip(tcases, tres):
+            if 'error' in r:
+                add_cex('impl_error:text:' + c['fkey'], 'expr(%r) failed: %s' % (c['text'], r['error']), c)
+                continue
+            cflag = bool(r.get('is_causal'))
+            for p, rj in zip(c['points'], r['res']):
+                res.add_case('text|%s|%s|%s' % (c['text'], p, c['mode']), True, None)
+                res.count('search_points')
+                if at_disc(c, p):
+                    continue
+                below = 'pw_ge' in c and ',' not in p and F(p) < F(c['pw_ge'])
+                if 'vec_err' in r:
+                    if not any(',' not in q and 'pw_ge' in c and F(q) < F(c['pw_ge']) for q in c['points']):
+                        add_cex('raises:text:%s:vector' % c['fkey'], 'vector evaluation of %s raises %s' % (c['text'], r['vec_err']), c, p, lcapy=r.get('vec_msg'))
+                    break
+                if below:
+                    if 'num' in rj and not cflag:
+                        add_cex('extrapolated:text:' + c['fkey'], '%s is defined for t >= %s only but evaluate(%s) returns %s' % (c['text'], c['pw_ge'], p, rj['num']), c, p, lcapy=rj)
+                    continue
+                if 'sym' not in rj:
+                    continue
+                sv = complex(float(rj['sym'][0]), float(rj['sym'][1]))
+                if 'num' not in rj:
+                    add_cex('raises:text:%s:%s' % (c['fkey'], text_class(c, p)), 'evaluate(%s) of %s raises %s' % (p, c['text'], rj.get('num_err')), c, p, lcapy=rj)
+                    continue
+                nv = complex(float(rj['num'][0]), float(rj['num'][1]))
+                if sv != sv or abs(sv) == float('inf'):
+                    continue
+                scale = max(1.0, abs(sv))
+                d = abs(nv - sv) if nv == nv else float('inf')
+                if d <= 1e-9 * scale:
+                    continue
+                if d > 1e-6 * scale:
+                    add_cex('sym_ne_num:%s:%s' % (c['fkey'], text_class(c, p)), 'evaluate(%s) of %s = %r but sympy.N(subs, 50) = %r' % (p, c['text'], nv, sv),
+                            c, p, lcapy=rj, float_evidence=True)
+                else:
+                    notes.append('rounding-level difference %.2e (not reported): %s at %s' % (d / scale, c['text'], p))
+        res.notes += notes[:10]
+        # lambdify contract, companion netlists, exact one-step formulas
+        sim_items = []
+        for c, r in zip(misc, mres):
+            if c['kind'] == 'lambdify':
+                if 'error' in r or 'sinc(t/pi)' not in r.get('src', ''):
+                    res.disagreements.append({'case': c, 'lcapy': r, 'side': 'lambdify contract sinc(x) -> sinc(x/pi)'})
+                res.extra['lambdify_sinc_source'] = r.get('src')
+            elif c['kind'] == 'rmodel' and ns is not None:
+                want = ns.rmodel[c['cpt']]
+                if 'error' in r or 'R' not in r or 'V' not in r:
+                    res.disagreements.append({'case': c, 'lcapy': r, 'side': 'r_model netlist'})
+                    continue
+                names = {'2': 'N1', '3': 'N2'}
+                got = {'R': [names.get(n, 'N3') for n in r['R']], 'V': [names.get(n, 'N3') for n in r['V']]}
+                if got['R'] != want['R'] or got['V'] != want['V'] or r['R'][1] != r['V'][0] and want['R'][1] == want['V'][0]:
+                    res.disagreements.append({'case': c, 'lcapy': r, 'side': 'r_model orientation', 'model': want})
+                res.count('rmodel_checked')
+        if ns is not None and os.path.exists(w.path('NumSimGen.vo')):
+            TAG = {k: v[0] for k, v in TS.CLASSES.items()}
+            lines = []
+            for i, (c, r) in enumerate(zip(stcases, stres)):
+                if 'error' in r:
+                    res.disagreements.append({'case': c, 'lcapy': r, 'side': 'simstep'})
+                    continue
+                t = TAG[c['cls']]
+                X, dt, v1, v2, ip = (qcl(c[k]) for k in ('X', 'dt', 'v1p', 'v2p', 'ip'))
+                g = '(geq_%s (K:=QcF) %s %s)' % (t, X, dt)
+                v = '(veq_%s (K:=QcF) %s %s %s %s %s)' % (t, X, dt, v1, v2, ip)
+                conds = ['qc_eqb %s %s' % (g, qcl(r['geq'])), 'qc_eqb %s %s' % (v, qcl(r['veq'])),
+                         'qc_eqb (1 / %s)%%Qc %s' % (g, qcl(r['Req'])), 'qc_eqb %s %s' % (v, qcl(r['Veq'])), 'qc_eqb %s %s' % (v, qcl(r['Z'][3]))]
+                idx = {'N1': 0, 'N2': 1, 'N3': 2}
+                for rn in idx:
+                    for cn in idx:
+                        conds.append('qc_eqb (entry stamp_A %s %s %s) %s' % (g, rn, cn, qcl(r['A'][idx[rn]][idx[cn]])))
+                lines.append('(%d%%nat, %s)' % (i, ' && '.join(conds)))
+                pyok = all(F(r['A'][3][k]) == 0 and F(r['A'][k][3]) == 0 for k in range(4)) and all(F(z) == 0 for z in r['Z'][:3])
+                guard = ns.defs[(t, 'veq')]['guard']
+                if not pyok or (guard and r['veq0'] != '0/1'):
+                    res.disagreements.append({'case': c, 'lcapy': r, 'side': 'simstep stamp rows / n<1 guard'})
+                res.add_case('simstep|' + json.dumps(c, sort_keys=True), True, None)
+            w.write('simcases.v', SIM_CASES_HDR + 'Definition cases : list (nat * bool) := [\n%s].\nEval vm_compute in (failing cases).\n' % ';\n'.join(lines))
+            ok, out, secs = core.coqc(w.dir, 'simcases.v', timeout=300)
+            fl = core.parse_eval_list(out) if ok else None
+            if fl is None:
+                res.failed_obl.append(('correspondence_eval', 'simcases.v', out[-600:]))
+                res.obligations += 1
+            else:
+                for i in fl:
+                    res.disagreements.append({'case': stcases[i], 'lcapy': stres[i], 'side': 'simstep geq/veq/stamp vs Gen.NumSimGen'})
+
+        # ---- 6. convergence search (floats; reported only far above rounding) --------------
+        def errs(groups):
+            out = {}
+            for (cid, N), (c, ys, ref) in groups.items():
+                out.setdefault(cid, []).append((N, max(abs(a - b) for a, b in zip(ys, ref)), c, ys, ref))
+            return {k: sorted(v) for k, v in out.items()}
+        groups = {}
+        for c, r in zip(scases, sres):
+            if 'error' in r:
+                add_cex('sim:error:' + c['id'], 'Simulator failed: ' + r['error'], c)
+                continue
+            N = int(c['N'])
+            tv = [float(F(c['T'])) * i / (N - 1) for i in range(N)]
+            groups[(c['id'], N)] = (c, r[c['probe'][0]], sim_ref(c['ref'], tv))
+        conv = {}
+        for cid, lst in errs(groups).items():
+            if len(lst) < 2:
+                continue
+            (N1, e1, c1, _, _), (N2, e2, c2, _, _) = lst[0], lst[-1]
+            conv[cid] = [e1, e2]
+            res.add_case('sim|' + cid, True, None)
+            if not (e2 <= 0.6 * e1 or e2 <= 1e-9) and e2 > 1e-3:
+                add_cex('sim:no-convergence:' + cid, 'max error of %s vs the closed form does not shrink with the step: %.3g (N=%d) -> %.3g (N=%d)' % (
+                    c2['probe'][0], e1, N1, e2, N2), c2, float_evidence=True)
+        groups = {}
+        for c, r in zip(rcases, rres):
+            if 'error' in r:
+                add_cex('response:error:' + c['id'], 'response() failed: ' + r['error'], c)
+                continue
+            N = int(c['N'])
+            tv = [float(F(c['T'])) * i / (N - 1) for i in range(N)]
+            groups[(c['id'], N)] = (c, r['y'], [RESP_H[c['hi']][1](t) for t in tv])
+        for cid, lst in errs(groups).items():
+            if len(lst) < 2:
+                continue
+            (N1, e1, c1, y1, f1), (N2, e2, c2, y2, f2) = lst[0], lst[-1]
+            conv[cid] = [e1, e2]
+            res.add_case('response|' + cid, True, None)
+            if not (e2 <= 0.6 * e1 or e2 <= 1e-9) and e2 > 1e-3:
+                h1, h2 = float(F(c1['T'])) / (N1 - 1), float(F(c2['T'])) / (N2 - 1)
+                d1 = max(abs(a / h1 - b) for a, b in zip(y1, f1))
+                d2 = max(abs(a / h2 - b) for a, b in zip(y2, f2))
+                key = 'response:result-scaled-by-dt' if d2 <= 0.6 * d1 else 'response:no-convergence:' + cid
+                add_cex(key, '%s.response(step, t, method=%s): max error vs the symbolic step response %.3g (N=%d) -> %.3g (N=%d); error of result/dt: %.3g -> %.3g' % (
+                    c2['H'], c2['method'], e1, N1, e2, N2, d1, d2), c2, float_evidence=True)
+        res.extra['convergence_errors_coarse_fine'] = conv
+        res.rule = ('exact class: %d generated expressions in t,f,omega,s,n,k,z (sums/products of rational functions, Heaviside/DiracDelta/sign/rect/tri/'
+                    'ramp/rampstep/trap/UnitStep/UnitImpulse/dtrect/dtsign of affine arguments, one- and two-clause Piecewise) + single-function probes, '
+                    'each at <= 10 dyadic points (negatives, 0, break points +- 1/8..1/32, large), scalar/list/tuple/array; float search: %d templates; '
+                    'non-trivial = the point entered an exact or float comparison; distinct = distinct (domain, expression, point)') % (ngen, len(tcases))
+
+        # ---- 7. decide ------------------------------------------------------------------
+        seen = {}
+        for d in cex:
+            seen.setdefault(d['key'], d)
+        for k, d in seen.items():
+            d = dict(d)
+            d['replay'] = {'case': d['case'], 'point': d.get('point')}
+            violations.append(d)
+        new_keys = [k for k in seen if k not in known_open]
+        THM_EXPLAIN = [(r'^causal_', ('causal_mask',)), (r'^(array_|scalar_)', ('array_ne_scalar',)), (r'^(no_extrapolation|conditioned_)', ('extrapolated',)),
+                       (r'^(cap_|ind_|rmodel_|stamp_|pade)', ('sim:',)), (r'^gbt_', ('response:',))]
+
+        def explained(name, f_):
+            if f_ in file_key:
+                k = file_key[f_]
+                return any(q.split(':')[0] in ('sym_ne_num', 'raises') and q.split(':')[1] == k for q in seen)
+            if f_ == 'C17_expr.v':
+                return any(not r1[g][0] for g in tfiles)      # a per-function theorem is already reported
+            for pat, prefs in THM_EXPLAIN:
+                if re.match(pat, name):
+                    return any(q.startswith(prefs) for q in new_keys)
+            if name.startswith(('translate_', 'definitions_', 'gate', 'correspondence_eval')):
+                return bool(new_keys)
+            return False
+        for name, f_, msg in res.failed_obl:
+            if explained(name, f_):
+                continue
+            violations.append({'key': 'obligation:' + name, 'what': 'Coq obligation %s in %s no longer checks' % (name, f_),
+                               'theorem': name, 'file': f_, 'statement': stmts.get(name), 'message': msg, 'found_input': False})
+        dk = set()
+        for d in res.disagreements:
+            c = d['case']
+            k = 'correspondence:%s:%s' % (d.get('side'), ','.join(sorted(set(funcs_in(c.get('tree', []))))) or c.get('kind', c.get('cls', '')))
+            if k in dk:
+                continue
+            dk.add(k)
+            if new_keys and d.get('side') in ('num', 'vec', 'sym'):
+                # the same run produced a concrete failing input that is not a recorded finding: report that one
+                continue
+            violations.append({'key': k, 'what': 'model and real code differ (%s side)' % d.get('side'), 'case': c, 'point': d.get('point'),
+                               'lcapy': d.get('lcapy'), 'found_input': False, 'correspondence': 'Gen.NumFuncsGen / Gen.NumSimGen vs lcapy'})
+        return core.finish(res, violations)
+    finally:
+        if not os.environ.get('VERIF_KEEP'):
+            w.cleanup()
+
+
+if __name__ == '__main__':
+    sys.exit(run(sys.argv[1] if len(sys.argv) > 1 else 'quick'))
